@@ -75,8 +75,11 @@ func readNextPacket(buf *bytes.Buffer) (recoverySetID, packetType, []byte, error
 		return [16]byte{}, packetType{}, nil, err
 	}
 
-	// TODO: Handle overflow.
-	bodyLength := int(h.Length - sizeOfPacketHeader())
+	bodyLength64 := h.Length - sizeOfPacketHeader()
+	if bodyLength64 > uint64(buf.Len()) {
+		return [16]byte{}, packetType{}, nil, errors.New("could not read body")
+	}
+	bodyLength := int(bodyLength64)
 	body := buf.Next(bodyLength)
 	if len(body) != bodyLength {
 		return [16]byte{}, packetType{}, nil, errors.New("could not read body")
